@@ -434,3 +434,13 @@ def post_atoms(rat, prefix='post_'):
         if isinstance(a, str) and a.startswith(prefix):
             out.add(a[len(prefix):])
     return out
+
+
+def degree_local(fi):
+    """The local bound to len(<coefficients>) - 1 (the degree of a sum), whatever it is called."""
+    from ..core.pattern import find
+    from ..core.db import AnalysisError
+    names = sorted({b['V_M'] for b, _ in find(fi.node, 'V_M = len(E_s) - 1')})
+    if len(names) != 1:
+        raise AnalysisError('%s: the degree local (bound to len(coefficients) - 1) was not found uniquely: %s' % (fi.qual, names))
+    return names[0]
